@@ -149,7 +149,7 @@ Definition forwarded (p : pass) (sup : list name) (f : func) (r : option (func *
 
 (* [status; wf; Passes.dead_final_operands (ccp / pipeline); escape flag; sanity runs reproduced; sanity runs NOT
     reproduced; sanity runs on which the invariant between rounds (mode Add) fails; struct fields forwarded]
-   The sanity runs are skipped when struct fields were forwarded: the test world is not a `struct_world`. *)
+   The sanity runs are skipped when struct fields were forwarded: the test world is not `struct_honest` for them. *)
 Definition tie_case (p : pass) (sup : list name) (before after : func) : list N :=
   let wf := b2n (wf_func before) in
   let r := model p sup before in
